@@ -323,7 +323,7 @@ fn any_addr(rng: &mut Rng) -> u8 {
     }
 }
 
-fn gen_src(rng: &mut Rng, p: &mut Prog, wild: bool) -> Src {
+pub fn gen_src(rng: &mut Rng, p: &mut Prog, wild: bool) -> Src {
     match rng.below(10) {
         0 | 1 => Src::R(rng.below(if wild { 4 } else { 3 }) as u8),
         2 | 3 => Src::Imm(rng.u8()),
@@ -352,7 +352,7 @@ fn gen_src(rng: &mut Rng, p: &mut Prog, wild: bool) -> Src {
     }
 }
 
-fn gen_dst(rng: &mut Rng, p: &mut Prog, wild: bool, avoid: Option<u8>) -> Dst {
+pub fn gen_dst(rng: &mut Rng, p: &mut Prog, wild: bool, avoid: Option<u8>) -> Dst {
     let mut pick_reg = |rng: &mut Rng| loop {
         let r = rng.below(3) as u8;
         if Some(r) != avoid {
@@ -396,7 +396,26 @@ pub struct HazardOpts {
     /// place a tail of the program at 0xE8.. so that PC runs into the I/O area
     pub run_into_io: bool,
     pub with_ei: bool,
+    /// interrupt-program layout (C04): `JR MAIN; JR ISR` head, typed stack discipline, ISR tail
+    pub irq: Option<IrqOpts>,
 }
+
+#[derive(Clone, Copy, Debug, PartialEq)]
+pub struct IrqOpts {
+    /// program sets the key-edge enable bit (MICR bit 0)
+    pub enable_key: bool,
+    /// main program contains DI ... EI windows and flag loads that may clear IE
+    pub di_windows: bool,
+    /// the ISR re-enables interrupts (nesting)
+    pub nested_ei: bool,
+    /// the ISR does register work besides counting
+    pub isr_work: bool,
+    /// set the enable bit with a plain store instead of `BITS (0xF9),1` (which reads the status register)
+    pub enable_by_store: bool,
+}
+
+pub const IRQ_COUNTER: u8 = 0xCF;
+pub const IRQ_SCRATCH: u8 = 0xCE;
 
 /// Instruction sequence from the full emittable set with a bias toward hazards (DESIGN.md C01 A).
 /// Returns the image and the stack pointer it installs.
@@ -405,14 +424,32 @@ pub fn hazard_program(rng: &mut Rng, o: HazardOpts) -> Vec<u8> {
     // subroutine table is placed after the main body; CALLs are patched afterwards
     let mut call_sites: Vec<usize> = vec![];
     let mut depth: i32 = 0;
+    // kinds of the values on the stack (true = flag register), so that POPF only pops flags
+    let mut kinds: Vec<bool> = vec![];
+    let body_limit = if o.irq.is_some() { 0x58 } else { 0x80 };
+    if o.irq.is_some() {
+        p.byte(0x20).byte(0x02); // JR MAIN (to address 4)
+        p.byte(0x20).byte(0x00); // JR ISR, patched below
+    }
     p.ldsp(Src::Imm(0xEF));
-    if o.with_ei {
+    if let Some(i) = o.irq {
+        if i.enable_key {
+            if i.enable_by_store {
+                // LD R0,#1 ; ST (0xF9),R0 -- no read of the status register involved
+                p.ld_imm(0, 1);
+                p.st_abs(0xF9, 0);
+            } else {
+                p.two(OP2_BITS, Dst::Abs(0xF9), Src::Imm(1));
+            }
+        }
+        p.ei();
+    } else if o.with_ei {
         p.two(OP2_BITS, Dst::Abs(0xF9), Src::Imm(1));
         p.ei();
     }
     let mut last_flag_producer = false;
     let mut n = 0;
-    while n < o.len && p.len() < 0x80 {
+    while n < o.len && p.len() < body_limit {
         n += 1;
         let choice = if last_flag_producer && rng.chance(1, 2) { 100 + rng.below(5) } else { rng.below(40) };
         last_flag_producer = false;
@@ -462,19 +499,23 @@ pub fn hazard_program(rng: &mut Rng, o: HazardOpts) -> Vec<u8> {
                 if depth < 5 {
                     if rng.bool() {
                         p.push(rng.below(if o.wild { 4 } else { 3 }) as u8);
+                        kinds.push(false);
                     } else {
                         p.pushf();
+                        kinds.push(true);
                     }
                     depth += 1;
                 }
             }
             29 => {
                 if depth > 0 {
-                    if rng.chance(2, 3) {
-                        p.pop(rng.below(3) as u8);
-                    } else {
+                    let top_is_flags = kinds.pop().unwrap_or(false);
+                    let popf = if o.irq.is_some() { top_is_flags } else { rng.chance(1, 3) };
+                    if popf {
                         // POPF may set IE: harmless without an enabled key
                         p.popf();
+                    } else {
+                        p.pop(rng.below(3) as u8);
                     }
                     depth -= 1;
                 }
@@ -524,10 +565,18 @@ pub fn hazard_program(rng: &mut Rng, o: HazardOpts) -> Vec<u8> {
                 }
             }
             35 => {
-                p.ldfr(if rng.bool() { Src::Imm(rng.u8() & if o.with_ei { 0xFF } else { 0xF7 }) } else { Src::R(rng.below(3) as u8) });
+                match o.irq {
+                    Some(i) if !i.di_windows => {
+                        // flag loads that keep IE set
+                        p.ldfr(Src::Imm(rng.u8() | 0x08));
+                    }
+                    _ => {
+                        p.ldfr(if rng.bool() { Src::Imm(rng.u8() & if o.with_ei { 0xFF } else { 0xF7 }) } else { Src::R(rng.below(3) as u8) });
+                    }
+                }
             }
             36 => {
-                if o.wild {
+                if o.wild && o.irq.is_none() {
                     p.ldsp(Src::Imm(0xE0 + rng.below(16) as u8));
                     depth = 0;
                 } else {
@@ -535,7 +584,22 @@ pub fn hazard_program(rng: &mut Rng, o: HazardOpts) -> Vec<u8> {
                 }
             }
             37 => {
-                p.byte(*rng.pick(&[0x02u8, 0x0C, 0x08]));
+                match o.irq {
+                    Some(i) if i.di_windows => {
+                        // a DI ... EI window
+                        p.di();
+                        for _ in 0..rng.below(4) {
+                            p.un(*rng.pick(&[0x44u8, 0x50, 0x30, 0x38]), rng.below(3) as u8);
+                        }
+                        p.ei();
+                    }
+                    Some(_) => {
+                        p.byte(*rng.pick(&[0x02u8, 0x08]));
+                    }
+                    None => {
+                        p.byte(*rng.pick(&[0x02u8, 0x0C, 0x08]));
+                    }
+                }
             }
             38 => {
                 // output / input registers
@@ -575,6 +639,7 @@ pub fn hazard_program(rng: &mut Rng, o: HazardOpts) -> Vec<u8> {
             103 => {
                 if depth < 5 {
                     p.pushf();
+                    kinds.push(true);
                     depth += 1;
                 }
             }
@@ -587,7 +652,11 @@ pub fn hazard_program(rng: &mut Rng, o: HazardOpts) -> Vec<u8> {
     }
     // balance the stack so that subroutine returns work
     while depth > 0 {
-        p.pop(rng.below(3) as u8);
+        if kinds.pop().unwrap_or(false) && o.irq.is_some() {
+            p.popf();
+        } else {
+            p.pop(rng.below(3) as u8);
+        }
         depth -= 1;
     }
     if o.run_into_io {
@@ -620,6 +689,34 @@ pub fn hazard_program(rng: &mut Rng, o: HazardOpts) -> Vec<u8> {
         let t = subs[rng.usize(subs.len())];
         p.b[site + 1] = t;
     }
+    if let Some(i) = o.irq {
+        // interrupt service routine: counts in IRQ_COUNTER, preserves what it uses
+        let isr = p.here();
+        p.b[3] = isr.wrapping_sub(4);
+        p.push(0);
+        if i.isr_work {
+            p.push(1);
+        }
+        p.ld_abs(0, IRQ_COUNTER);
+        p.un(0x44, 0);
+        p.st_abs(IRQ_COUNTER, 0);
+        if i.isr_work {
+            p.ld_imm(1, rng.u8());
+            p.alu(*rng.pick(&ALU_BASES), 1, 0);
+            p.alu(*rng.pick(&ALU_BASES[..5]), 0, 1);
+            p.st_abs(IRQ_SCRATCH, 1);
+        }
+        if i.nested_ei {
+            p.ei();
+            p.nop();
+            p.nop();
+        }
+        if i.isr_work {
+            p.pop(1);
+        }
+        p.pop(0);
+        p.reti();
+    }
     // data area
     p.org(DATA_LO as usize);
     while p.len() <= DATA_HI as usize {
@@ -647,6 +744,7 @@ pub fn hazard_setup(rng: &mut Rng, wild_p: u64) -> Setup {
         wild,
         run_into_io,
         with_ei: rng.chance(1, 4),
+        irq: None,
     };
     let bytes = hazard_program(rng, o);
     let stack = if rng.chance(1, 2) { 16 } else { pick_stack(rng) };
